@@ -13,7 +13,7 @@ use std::{
 };
 
 // under --cfg deadpool_verif the pool reads its instants from tokio's paused clock
-use tokio::time::Instant;
+pub use tokio::time::Instant;
 
 use deadpool::managed::{
     Hook, HookError, HookResult, Manager, Metrics, Object, Pool, PoolError, QueueMode,
@@ -595,7 +595,8 @@ impl MWorld {
             }
         }
         if profile == "C13" {
-            crate::moracle::c13_on_handout(self, id, m, prev_reported, h);
+            let since = cur_op_of(self, actor).map(|o| self.ops[o].invoke_ms);
+            crate::moracle::c13_on_handout(self, id, m, prev_reported, h, since);
         }
     }
 
@@ -1405,13 +1406,20 @@ pub fn run_op(actor: usize, idx: usize, op: Op, pool: &mut Option<SPool>) {
         }
         Op::Status => {
             let Some(p) = pool.as_ref() else { return };
-            let opi = with_w(|w| w.op_invoke(actor, idx, op));
+            let opi = with_w(|w| {
+                let opi = w.op_invoke(actor, idx, op);
+                crate::moracle::on_status_invoke(w, opi);
+                opi
+            });
             let r = guarded(|| p.status());
             let res = match r {
                 Ok(s) => OpRes::Status(s.into()),
                 Err(e) => e,
             };
-            with_w(|w| w.op_return(opi, res));
+            with_w(|w| {
+                w.op_return(opi, res);
+                crate::moracle::on_status_done(w, opi);
+            });
         }
         Op::DropHandle => {
             let opi = with_w(|w| w.op_invoke(actor, idx, op));
